@@ -54,6 +54,9 @@ struct KDM   { template<class D, class I> using type = DenseMatrix<D, I>; };
 struct KCSCR { template<class D, class I> using type = SparseMatrixCSCR<D, I>; };
 struct KSV   { template<class D, class I> using type = SparseVector<D, I>; };
 struct KSVB  { template<class D, class I> using type = SparseVectorBlocked<D, I, 2>; };
+template<class K> struct HasCopy { static constexpr bool value = true; };
+template<> struct HasCopy<KSV> { static constexpr bool value = false; };
+template<> struct HasCopy<KSVB> { static constexpr bool value = false; };
 template<class K> struct HasLayout { static constexpr bool value = false; };
 template<> struct HasLayout<KCSR> { static constexpr bool value = true; };
 template<> struct HasLayout<KBCSR> { static constexpr bool value = true; };
@@ -516,6 +519,19 @@ static bool do_op(Cur& c, std::ostream& o)
       T& src = as<decltype(k), D, I>(sb);
       if(!sa.alive()) { sa.obj = new T(std::move(src)); sa.kind = sb.kind; sa.dt = sb.dt; sa.it = sb.it; }
       else as<decltype(k), D, I>(sa) = std::move(src);
+    }); });
+  }
+  else if(op == "copy")
+  {
+    int a = (int)c.i64(), b = (int)c.i64(), full = (int)c.i64();
+    need_alive(a); need_alive(b);
+    Box& sb = slots[b]; Box& sa = slots[a];
+    if(sa.kind != sb.kind || sa.dt != sb.dt || sa.it != sb.it || sa.kind >= 7) bad("copy: type mismatch");
+    with_kind(sb.kind, [&](auto k) { with_di(sb.dt, sb.it, [&](auto dtag, auto itag)
+    {
+      typedef typename decltype(dtag)::type D; typedef typename decltype(itag)::type I;
+      if constexpr(HasCopy<decltype(k)>::value)
+        as<decltype(k), D, I>(sa).copy(as<decltype(k), D, I>(sb), full != 0);
     }); });
   }
   else if(op == "clear")
